@@ -662,11 +662,15 @@ Definition ttl_spec (c : ttl_case) (o : ttl_obs) : bool :=
   | _, _ => false
   end.
 
-(* graph-level conformance suite (no model behind it): the harness computes the input-side trigger number of
-   the known finding that applies (0 = none) and observes 1 = round trip fine, 0 = not.  Where a trigger
-   applies the model does not predict the outcome (2). *)
+(* graph-level suite: DIFFERENTIAL TESTING WITH A PYTHON ORACLE, no model behind it.  The harness computes the
+   input-side trigger number of the known finding that applies (0 = none) and observes
+     1 = the round trip is exact (isomorphic up to blank-node renaming),
+     3 = not exact, a trigger applies, and everything the finding does not concern is intact / the damage is the one
+         the finding predicts (harness/c03.py: residual_ok),
+     0 = anything else (a difference the findings do not explain, an exception, a timeout).
+   Where a trigger applies the outcome 1 or 3 is not predicted (2); 0 never agrees with the model. *)
 Definition rt_case := N.
 Definition rt_model (c : rt_case) : N := if c =? 0 then 1 else 2.
-Definition rt_obs_eqb (m o : N) : bool := (m =? 2) || (m =? o).
+Definition rt_obs_eqb (m o : N) : bool := (m =? o) || ((m =? 2) && ((o =? 1) || (o =? 3))).
 Definition rt_spec (c : rt_case) (o : N) : bool := o =? 1.
 Definition rt_kf (c : rt_case) : N := c.
